@@ -23,6 +23,8 @@ R4  element sizes: dm_sz of every yydmap entry equals the size of the element ty
 R5  documented constants: magic number written == magic number tested == 0xF13C57B1; enum yytbl_id and
     enum yytbl_flags as compiled into flex and into every variant equal the values in the manual; the
     td_flags -> bytes decoding is the same on both sides.
+R8  the per-set byte counter (bread) is reset to 0 on every path to every yytbl_hdr_read call (first set and every
+    further set of a concatenated file), with nothing read in between.
 R6  release: yytables_destroy walks yydmap from its first entry to the terminator, frees *dm_arr of every
     entry and resets it.
 """
@@ -738,6 +740,8 @@ def reader_checks(ctx, v, W, doc):
     a0 = dcalls[0].ops[0]
     if first_elem_of(a0, 'yydmap'): rep.ok('C15.R3', '%s yytbl_fload: yytbl_data_load(yydmap, ...)' % tag)
     else: fail(rep, 'C15.R3', key, where(dcalls[0]), 'yytbl_fload does not pass the first entry of yydmap to yytbl_data_load [%s]' % tag)
+    # ---- R8: the per-set byte counter starts at 0 for every header that is read
+    r8_counter_reset(rep, prog, fl, tag)
     # ---- the name the loader looks for is the name flex gives the set
     tf = F['yytables_fload']
     kc = [c for c in tf.ins if c.op == 'call' and norm(c.callee) == 'yytbl_fload']
@@ -778,6 +782,47 @@ def reader_checks(ctx, v, W, doc):
         else: fail(rep, 'C15.R1', key, where(fs[0]), 'yytbl_fload skips a foreign table set by `%s` (whence %s) after consuming th_hsize bytes of header; the next set starts th_ssize bytes after the start of this one [%s]' % (lin_str(lf) if lf else '?', wh, tag))
     R['F'] = F
     return R
+
+READ_CALLS = ('yytbl_read8', 'yytbl_read16', 'yytbl_read32', 'yytbl_hdr_read', 'yytbl_data_load', 'fread')
+
+def r8_counter_reset(rep, prog, fn, tag):
+    """bread counts the bytes of the current table set (the load loop compares it with th_ssize, padding is computed
+    from it): every yytbl_hdr_read call - the first one and each later one in the search for the wanted set - must
+    be reached only through a reset of bread to 0 with nothing read in between."""
+    res = Resolver(fn); cfg = prog.cfg(fn)
+    base = norm(fn.name)
+    Z = []
+    for x in fn.ins:
+        if x.op == 'store' and x.ops[0] == ('int', 0) and field_of(res.loc(x.ops[1])) == ('yytbl_reader', 'bread'): Z.append(x)
+        elif x.op == 'call' and isinstance(x.callee, str) and x.callee.startswith('llvm.memset') and x.ops[1] == ('int', 0):
+            l = res.loc(flow.strip_casts(fn, x.ops[0]))
+            a = fn.def_of(('reg', l[1])) if l[0] == 'local' else None
+            if a is not None and a.ty is not None and a.ty.k == 'named' and ir.short_struct(a.ty.a) == 'yytbl_reader': Z.append(x)
+    H = [c for c in fn.ins if c.op in ('call', 'invoke') and norm(c.callee) == 'yytbl_hdr_read']
+    if not H: rep.broken('%s does not call yytbl_hdr_read [%s]' % (fn.name, tag))
+    reads = [c for c in fn.ins if c.op in ('call', 'invoke') and norm(c.callee) in READ_CALLS]
+    first = fn.entry.ins[0]
+    for n, h in enumerate(H):
+        key = 'C15.R8:%s:%s:bread-reset%s' % (SKEL, base, '' if len(H) == 1 else '#%d' % n)
+        if first is h or h in cfg.reach(first, avoid=Z, include_start=True):
+            wit = cfg.path(first, lambda x: x is h, avoid=Z, include_start=True)
+            fail(rep, 'C15.R8', key, where(h), '%s reads a set header without having set rd->bread to 0 on a path from the function entry: the byte count of the set starts from garbage [%s]' % (base, tag),
+                 witness=['%s:%s' % (x.blk.name, x.line) for x in wit] if wit else None); continue
+        again = [g for g in H if h in cfg.reach(g, avoid=Z)]
+        if again:
+            wit = cfg.path(again[0], lambda x: x is h, avoid=Z)
+            fail(rep, 'C15.R8', key, where(h), '%s reads the header of a further table set without resetting rd->bread (path from the previous yytbl_hdr_read at line %s avoids every `bread = 0`): '
+                 'the byte count of the selected set then includes the skipped sets, `while (bread < th_ssize)` stops early and the last tables stay unloaded while yytables_fload returns 0 [%s]' % (base, again[0].line, tag),
+                 witness=['%s:%s' % (x.blk.name, x.line) for x in wit] if wit else None,
+                 replay_input='cat other.tables wanted.tables > all.tables (wanted set not first); yytables_fload(all.tables) returns 0 with the last table pointer NULL'); continue
+        dirty = None
+        for z in Z:
+            mid = cfg.reach(z, avoid=[y for y in Z if y is not z] + [h])
+            for r in reads:
+                if r is not h and r in mid and h in cfg.reach(r, avoid=Z): dirty = (z, r)
+        if dirty:
+            fail(rep, 'C15.R8', key, where(dirty[1]), '%s: %s consumes bytes between the reset of rd->bread (line %s) and yytbl_hdr_read [%s]' % (base, dirty[1].callee, dirty[0].line, tag)); continue
+        rep.ok('C15.R8', '%s %s: yytbl_hdr_read@%s reached only through bread = 0 (%s)' % (tag, base, h.line, ','.join(str(z.line) for z in Z)))
 
 def first_elem_of(v, gname):
     if v == ('glob', gname): return True
@@ -1401,6 +1446,7 @@ def run(ctx):
     rep.floor('C15.R3', 12 + 10 * len(vs), 'ids written, per-variant written/expected pairs, terminators, yydmap hand-over')
     rep.floor('C15.R4', 4 * len(vs), 'yydmap entries of the tables variants (2-8 each; 104 in 20 variants today) (+1: the coupled type symbols in the generator)')
     rep.floor('C15.R5', 17 * (1 + len(vs)), 'magic, 17 enumerators and the flags decoding, flex and every variant')
+    rep.floor('C15.R8', len(vs), 'the yytbl_hdr_read call in yytbl_fload of every variant')
     rep.floor('C15.R6', len(vs), 'yytables_destroy of every variant')
     import c15_file
     nfile = c15_file.run(ctx, rep)
